@@ -190,7 +190,7 @@ def natural_run(tdgl, p, base_tmp=None):
     def w_enter(self):
         r = orig_enter(self)
         name = os.path.basename(self.output_path or "")
-        serial = {"out.h5": 0, "out-1.h5": 1, "out-2.h5": 2, "output.h5": 0}.get(name, BOT)
+        serial = {"out.h5": 0, "out-1.h5": 1, "out-2.h5": 2, "out-3.h5": 3, "output.h5": 0}.get(name, BOT)
         events.append({"ev": "open", "serial": serial, "fs": fs_state(sandbox, tempd, out_mode, foreign)})
         return r
 
